@@ -34,7 +34,7 @@ partial def goVal? : Sexp → Option GoVal
     let fs ← fs.mapM field?
     pure (.struct (← asBytes? t) (← asBytes? n) (← asBool? tm)
       (fs.foldr (fun (nm, ex, tt, tags, v) acc => .cons nm ex tt tags v acc) .nil))
-  | .node "other" [k, t] => do pure (.other (← asNat? k) (← asBytes? t))
+  | .node "other" [k, t, n, z] => do pure (.other (← asNat? k) (← asBytes? t) (← asBytes? n) (← asBool? z))
   | _ => none
 partial def field? : Sexp → Option (Bytes × Bool × Bool × List (Bytes × Bytes) × GoVal)
   | .node "f" [nm, ex, tt, .node "tags" tags, v] => do
